@@ -505,3 +505,23 @@ def single_entry(u: Unit):
         u.static(f"modes.single_entry[{label}]", all(s.startswith(home) for s in sites[key]), "", f"calls of {what}: {sites[key]}")
         if not sites[key]:      # the call-site pattern recognises nothing at all: the obligation above would be vacuous
             u.undecide(f"modes.single_entry[{label}].cover", "", f"no call of {what} recognised anywhere (vacuity guard)")
+
+
+# ---- 8. the copies made for observation / calibration runs carry the same pipeline ---------------------------------------
+def _copies(u: Unit):
+    """"Identically in every running mode": observation and calibration run COPIES of the processor (Processor.__deepcopy__,
+    create_new_processor, Processor.replace, update_processor). Each copy is structurally equal to the original — all ten
+    groups, every model, flag and argument (C06's units, scenario with every group populated)."""
+    from . import C06
+    C06.deepcopy_unit(u)
+    for name in ("new_processor", "replace"):
+        dict(verify_units("C06"))[name](u)
+    C06.calib_update(u)
+
+
+def verify_units(prop):
+    from pyvc import verify
+    return verify.UNITS.get(prop, [])
+
+
+unit("C01", "modes.copies_keep_pipeline")(_copies)
